@@ -105,7 +105,7 @@ def check_one(ctx, src, scopes, config, case):
                 regions, _ = carts.random_regions(ctx.rng, 'zero')
                 p1 = os.path.join(tmpd, ambient.BASE[0] + '.p8')
                 with open(p1, 'wb') as fh:
-                    fh.write(rc.write_p8(regions, src, version=ambient.VERSION[0]))
+                    fh.write(rc.write_p8_variant(ctx.rng, regions, src, version=ambient.VERSION[0]))
                 argv = [ambient.vflag(), 'luamin'] + (['--keep-names-from-file', keep_file] if config == 'cli_keep_file' else []) + [p1]
                 if tool.main(argv):
                     raise RuntimeError('p8tool luamin failed')
